@@ -220,10 +220,10 @@ def gen(name: str):
 
 
 LIKE_PROMISE = {"gen_combine_terms_in_place", "gen_commute_haystack", "gen_move_around_blockers_one",
-                "gen_move_around_blockers_two"}
+                "gen_move_around_blockers_two", "gen_simplify_multiple_terms"}
 
 
-def check_problem(name: str, out: Any, ctx: Optional[Ctx], texts: List[str]) -> List[Tuple[str, str]]:
+def check_problem(name: str, out: Any, ctx: Optional[Ctx], texts: List[str], kwargs: Optional[Dict[str, Any]] = None) -> List[Tuple[str, str]]:
     problems: List[Tuple[str, str]] = []
     if not (isinstance(out, tuple) and len(out) == 2):
         return [("bad-result", f"{name} returned {type(out).__name__}")]
@@ -240,7 +240,16 @@ def check_problem(name: str, out: Any, ctx: Optional[Ctx], texts: List[str]) -> 
         except Exception as e:
             problems.append(("unparseable", f"{name} produced '{text}', which the parser rejects ({type(e).__name__})"))
             continue
-        if name in LIKE_PROMISE:
+        # gen_simplify_multiple_terms drops variables by design when optional_var is set (the like pair can vanish),
+        # and only repeats a template when num_like_terms < num_terms (default inner_terms_scaling): the promise of
+        # like terms is checked where the documentation makes it
+        # ... and only between addends: `op` must be additive (op=None draws "*" as well, which joins the pair)
+        kw_ = kwargs or {}
+        ops_ = kw_.get("op")
+        additive = ops_ in ("+", "-") or (isinstance(ops_, list) and bool(ops_) and all(o in ("+", "-") for o in ops_))
+        conditional = name == "gen_simplify_multiple_terms" and (
+            kw_.get("optional_var") or kw_.get("inner_terms_scaling", 0.3) != 0.3 or not additive)
+        if name in LIKE_PROMISE and not conditional:
             try:
                 if not has_like_terms(tree):
                     problems.append(("no-like-terms", f"{name} produced '{text}', which has no like terms"))
@@ -299,7 +308,7 @@ def run_scheduled(name: str, kwargs: Dict[str, Any], pretty: bool, mode: str, ct
         return "ok", probs, out
     text = out[0]
     texts = [render(text, ctx, 0)]
-    return "ok", check_problem(name, out, ctx, texts), texts
+    return "ok", check_problem(name, out, ctx, texts, kwargs), texts
 
 
 def run_generator(name: str, kwargs: Dict[str, Any], pretty: bool, ctx: Ctx):
@@ -346,7 +355,7 @@ def run_generator(name: str, kwargs: Dict[str, Any], pretty: bool, ctx: Ctx):
     alt = render(text, ctx, 1)
     if alt != texts[0]:
         texts.append(alt)
-    return "ok", check_problem(name, out, ctx, texts), texts
+    return "ok", check_problem(name, out, ctx, texts, kwargs), texts
 
 
 def concrete_replay(name: str, kwargs: Dict[str, Any], pretty: bool, script: List[Any]) -> List[Tuple[str, str]]:
